@@ -162,11 +162,39 @@ func basicOps() []OpDef {
 				steps = append(steps, st)
 			}
 			mut := ""
-			in := world.ProbeInput{Steps: steps, ThenFail: r.Chance(0.2)}
+			dependent := false
+			if r.Chance(0.25) {
+				// a transfer that only a LATER transfer of the same transaction would fund: sender -> probe x, probe -> third party
+				// (probe balance + x + d), sender -> probe y with d <= y. In queue order the middle transfer exceeds its source's
+				// balance at its turn; in any other order (or with the two sender transfers folded) it would be covered.
+				x, y := 1+r.U64()%1e6, 1+r.U64()%1e6
+				d := 1 + r.U64()%y
+				third := h.anyWallet(r).ID
+				if third == from.ID {
+					third = world.SCAddresses["faucet"]
+				}
+				steps = []world.ProbeStep{{From: "sender", To: world.ProbeAddress, Amount: x}, {From: "sc", To: third, Amount: bal + x + d}, {From: "sender", To: world.ProbeAddress, Amount: y}}
+				value = x + y
+				if r.Chance(0.3) {
+					// control: the funding transfer comes first, the same three transfers are covered
+					steps[1], steps[2] = steps[2], steps[1]
+				}
+				if r.Chance(0.3) {
+					steps = append([]world.ProbeStep{{From: "sc", To: h.anyWallet(r).ID, Amount: 1 + r.U64()%1e6}}, steps...)
+					steps[2].Amount -= steps[0].Amount // the probe wallet is lower by then
+					if steps[2].From != "sc" {
+						steps[2].Amount += steps[0].Amount
+						steps[3].Amount -= steps[0].Amount
+					}
+				}
+				dependent = true
+				mut = "dependent-transfer"
+			}
+			in := world.ProbeInput{Steps: steps, ThenFail: !dependent && r.Chance(0.2)}
 			if in.ThenFail {
 				mut = "fail-after-transfers"
 			}
-			if r.Chance(0.1) {
+			if !dependent && r.Chance(0.1) {
 				steps[0].To = "not-a-hash"
 				mut = "bad-recipient"
 			}
